@@ -22,6 +22,9 @@ package persistence
 //@ ghost var jsonOkF gset[string]
 //@ ghost var jsonOkI gset[string]
 //@ ghost var decodeFailed bool
+// transactions started / committed through (*bolt.DB).Update (counted by the callback model)
+//@ ghost var txStarted int
+//@ ghost var txCommits int
 // results of the loads, in call order (lets a caller's contract speak about "the first load of this start")
 //@ ghost var curveLoadCount int
 //@ ghost var curveLoadOK gmap[int]bool
@@ -107,7 +110,8 @@ package persistence
 //@   ensures[C14.save.val]  err == nil ==> (dbVal["fans"][fanId(fan)] in jsonOkF) && encF(dbVal["fans"][fanId(fan)], *fans.dataPtr(fan))
 //@   ensures[C14.save.atomic] err != nil ==> dbHas == old(dbHas) && dbVal == old(dbVal) && dbBucket == old(dbBucket)
 //@   ensures dbWF()
-//@   modifies dbBucket, dbHas, dbVal, txBucket, txHas, txVal
+//@   ensures[C14.onetx] txStarted <= old(txStarted) + 1 && txCommits <= old(txCommits) + 1
+//@   modifies dbBucket, dbHas, dbVal, txBucket, txHas, txVal, txStarted, txCommits
 //@   loop 1 "for key, value := range *fan.GetFanRpmCurveData()"
 //@     invariant fanCurveDataMap != nil && ref(fanCurveDataMap) >= old(W) && ref(fanCurveDataMap) != ref(*fans.dataPtr(fan))
 //@     invariant mapdom(*fans.dataPtr(fan)) == old(mapdom(*fans.dataPtr(fan))) && mapval(*fans.dataPtr(fan)) == old(mapval(*fans.dataPtr(fan))) && mapvalk(*fans.dataPtr(fan)) == old(mapvalk(*fans.dataPtr(fan)))
@@ -137,7 +141,8 @@ package persistence
 //@   ensures[C14.load.roundtrip] err == nil && old(dbHas)["fans"][fanId(fan)] && (old(dbVal)["fans"][fanId(fan)] in jsonOkF) ==> data != nil && dbHas == old(dbHas) && encF(old(dbVal)["fans"][fanId(fan)], data)
 //@   ensures[C14.load.isolated] othersSame("fans", fanId(fan)) && dbVal == old(dbVal)
 //@   ensures dbWF()
-//@   modifies dbBucket, dbHas, dbVal, txBucket, txHas, txVal, decodeFailed, curveLoadCount, curveLoadOK
+//@   ensures[C14.onetx] txStarted <= old(txStarted) + 1 && txCommits <= old(txCommits) + 1
+//@   modifies dbBucket, dbHas, dbVal, txBucket, txHas, txVal, decodeFailed, curveLoadCount, curveLoadOK, txStarted, txCommits
 
 //@ func (persistence).DeleteFanPwmData$1
 //@   requires db != nil
@@ -158,7 +163,8 @@ package persistence
 //@   ensures[C14.delete.isolated C15] othersSame("fans", fanId(fan))
 //@   ensures[C14.delete.atomic] result != nil ==> dbHas == old(dbHas) && dbVal == old(dbVal)
 //@   ensures dbWF()
-//@   modifies dbBucket, dbHas, dbVal, txBucket, txHas, txVal
+//@   ensures[C14.onetx] txStarted <= old(txStarted) + 1 && txCommits <= old(txCommits) + 1
+//@   modifies dbBucket, dbHas, dbVal, txBucket, txHas, txVal, txStarted, txCommits
 
 // ---- pwm maps (bucket "fanPwmMap") ---------------------------------------------------------------------------
 
@@ -180,7 +186,8 @@ package persistence
 //@   ensures[C14.savemap.atomic] err != nil ==> dbHas == old(dbHas) && dbVal == old(dbVal) && dbBucket == old(dbBucket)
 //@   ensures[C14.savemap.arg] mapdom(pwmMap) == old(mapdom(pwmMap)) && mapval(pwmMap) == old(mapval(pwmMap))
 //@   ensures dbWF()
-//@   modifies dbBucket, dbHas, dbVal, txBucket, txHas, txVal, pwmMap[_]
+//@   ensures[C14.onetx] txStarted <= old(txStarted) + 1 && txCommits <= old(txCommits) + 1
+//@   modifies dbBucket, dbHas, dbVal, txBucket, txHas, txVal, pwmMap[_], txStarted, txCommits
 //@   loop 1 "for key, value := range pwmMap"
 //@     invariant mapdom(pwmMap) == old(mapdom(pwmMap)) && mapval(pwmMap) == old(mapval(pwmMap)) && len(pwmMap) == old(len(pwmMap))
 
@@ -208,7 +215,8 @@ package persistence
 //@   ensures[C14.loadmap.roundtrip] err == nil && old(dbHas)["fanPwmMap"][fanId] && (old(dbVal)["fanPwmMap"][fanId] in jsonOkI) ==> data != nil && dbHas == old(dbHas) && encI(old(dbVal)["fanPwmMap"][fanId], data)
 //@   ensures[C14.loadmap.isolated] othersSame("fanPwmMap", fanId) && dbVal == old(dbVal)
 //@   ensures dbWF()
-//@   modifies dbBucket, dbHas, dbVal, txBucket, txHas, txVal, decodeFailed, mapLoadCount, mapLoadOK, mapLoadRes
+//@   ensures[C14.onetx] txStarted <= old(txStarted) + 1 && txCommits <= old(txCommits) + 1
+//@   modifies dbBucket, dbHas, dbVal, txBucket, txHas, txVal, decodeFailed, mapLoadCount, mapLoadOK, mapLoadRes, txStarted, txCommits
 
 //@ func (persistence).DeleteFanPwmMap$1
 //@   requires db != nil
@@ -229,7 +237,8 @@ package persistence
 //@   ensures[C14.deletemap.isolated C15] othersSame("fanPwmMap", fanId)
 //@   ensures[C14.deletemap.atomic] result != nil ==> dbHas == old(dbHas) && dbVal == old(dbVal)
 //@   ensures dbWF()
-//@   modifies dbBucket, dbHas, dbVal, txBucket, txHas, txVal
+//@   ensures[C14.onetx] txStarted <= old(txStarted) + 1 && txCommits <= old(txCommits) + 1
+//@   modifies dbBucket, dbHas, dbVal, txBucket, txHas, txVal, txStarted, txCommits
 
 // ---- lemmas over the contracts above (functions in zz_lemmas_verif.go) ---------------------------------------
 // One step of "anything else": an operation on another fan's curve data (fan b) or on the pwm map of id2.
@@ -244,7 +253,7 @@ package persistence
 //@   ensures[C14.step.map] forall id string :: id != id2 ==> mapEntrySame(id)
 //@   ensures[C14.step.kind] (op >= 3 ==> forall id string :: curveEntrySame(id)) && (op < 3 ==> forall id string :: mapEntrySame(id))
 //@   ensures dbWF()
-//@   modifies dbBucket, dbHas, dbVal, txBucket, txHas, txVal, decodeFailed, curveLoadCount, curveLoadOK, mapLoadCount, mapLoadOK, mapLoadRes, m[_]
+//@   modifies dbBucket, dbHas, dbVal, txBucket, txHas, txVal, decodeFailed, curveLoadCount, curveLoadOK, mapLoadCount, mapLoadOK, mapLoadRes, m[_], txStarted, txCommits
 
 //@ func lemmaCurveHistory
 //@   props C14
@@ -252,7 +261,7 @@ package persistence
 //@   requires forall i int :: 0 <= i && i < len(bs) && bs[i] != nil ==> fans.fanWF(bs[i]) && (fans.dataPtr(bs[i]) != nil ==> ref(*fans.dataPtr(bs[i])) < W)
 //@   requires forall i int :: 0 <= i && i < len(ms) ==> ref(ms[i]) != ref(*fans.dataPtr(a))
 //@   ensures[C14.history.curve] saveErr == nil && loadErr == nil ==> data != nil && mapdom(data) == old(mapdom(*fans.dataPtr(a))) && forall k int :: k in mapdom(data) ==> mapval(data)[k] == old(mapval(*fans.dataPtr(a)))[k] && mapvalk(data)[k] == old(mapvalk(*fans.dataPtr(a)))[k]
-//@   modifies dbBucket, dbHas, dbVal, txBucket, txHas, txVal, decodeFailed, curveLoadCount, curveLoadOK, mapLoadCount, mapLoadOK, mapLoadRes, each(map[int]int)[_]
+//@   modifies dbBucket, dbHas, dbVal, txBucket, txHas, txVal, decodeFailed, curveLoadCount, curveLoadOK, mapLoadCount, mapLoadOK, mapLoadRes, each(map[int]int)[_], txStarted, txCommits
 //@   loop 1 "for i := 0; i < len(ops) && i < len(bs) && i < len(ids) && i < len(ms); i++"
 //@     invariant 0 <= i && dbWF() && dbHas["fans"][fanId(a)] && (dbVal["fans"][fanId(a)] in jsonOkF) && encF(dbVal["fans"][fanId(a)], *fans.dataPtr(a))
 //@     invariant mapdom(*fans.dataPtr(a)) == old(mapdom(*fans.dataPtr(a))) && mapval(*fans.dataPtr(a)) == old(mapval(*fans.dataPtr(a))) && mapvalk(*fans.dataPtr(a)) == old(mapvalk(*fans.dataPtr(a)))
@@ -264,7 +273,7 @@ package persistence
 //@   requires forall i int :: 0 <= i && i < len(bs) && bs[i] != nil ==> fans.fanWF(bs[i]) && (fans.dataPtr(bs[i]) != nil ==> ref(*fans.dataPtr(bs[i])) < W)
 //@   requires forall i int :: 0 <= i && i < len(ms) ==> ref(ms[i]) != ref(pwmMap)
 //@   ensures[C14.history.map] saveErr == nil && loadErr == nil ==> data != nil && mapdom(data) == old(mapdom(pwmMap)) && forall k int :: k in mapdom(data) ==> mapval(data)[k] == old(mapval(pwmMap))[k]
-//@   modifies dbBucket, dbHas, dbVal, txBucket, txHas, txVal, decodeFailed, curveLoadCount, curveLoadOK, mapLoadCount, mapLoadOK, mapLoadRes, each(map[int]int)[_]
+//@   modifies dbBucket, dbHas, dbVal, txBucket, txHas, txVal, decodeFailed, curveLoadCount, curveLoadOK, mapLoadCount, mapLoadOK, mapLoadRes, each(map[int]int)[_], txStarted, txCommits
 //@   loop 1 "for i := 0; i < len(ops) && i < len(bs) && i < len(ids) && i < len(ms); i++"
 //@     invariant 0 <= i && dbWF() && dbHas["fanPwmMap"][id] && (dbVal["fanPwmMap"][id] in jsonOkI) && encI(dbVal["fanPwmMap"][id], pwmMap)
 //@     invariant mapdom(pwmMap) == old(mapdom(pwmMap)) && mapval(pwmMap) == old(mapval(pwmMap))
@@ -275,7 +284,7 @@ package persistence
 //@   requires fans.fanWF(a) && dbWF()
 //@   ensures[C14.delete.idempotent] err1 == nil && err2 != nil ==> dbHas == old(dbHas) || !dbHas["fans"][fanId(a)]
 //@   ensures[C14.delete.notfound] err1 == nil ==> loadErr != nil && !dbHas["fans"][fanId(a)]
-//@   modifies dbBucket, dbHas, dbVal, txBucket, txHas, txVal, decodeFailed, curveLoadCount, curveLoadOK, mapLoadCount, mapLoadOK, mapLoadRes
+//@   modifies dbBucket, dbHas, dbVal, txBucket, txHas, txVal, decodeFailed, curveLoadCount, curveLoadOK, mapLoadCount, mapLoadOK, mapLoadRes, txStarted, txCommits
 
 // ---- Init ---------------------------------------------------------------------------------------------------
 //@ extern func path/filepath.Dir(path string) (d string)
